@@ -27,10 +27,18 @@
    code (Gen/Schema.v set_rule_calls), tied to the code by the driver's full presence tables.
    The other embedded signed objects (forged / unsigned ID
    Tokens, id_token_hint, the request object of oauth2 / oidc AuthorizationRequest) and the opaque kinds are
-   decided by the driver's oracle on the real code only. *)
+   decided by the driver's oracle on the real code only.
+   WHICH schema: the tables of Gen/Schema.v are read off the class objects after the whole package has been imported -
+   mutable dicts that another class body (`c_param = Parent.c_param` without copy, then `.update`; a shallow copy whose
+   lists are extended) or module-level code may have changed at import time.  Gen/SchemaDecl.v holds the tables as the
+   SOURCE TEXT of each class body declares them (harness/schema_decl.py: ast, evaluated by value, independent of import
+   order, fail closed); the section "the declared schema" below states that the two are the same tables, so that every
+   theorem of this file speaks about the declared schema; the driver's isolation runs (one fresh interpreter per
+   module) tie the run-time side to every import order. *)
 From Coq Require Import String.
-From Verif Require Import Lib.Base Lib.PyStr Lib.MsgSchema Gen.Schema
-  Model.Msg Model.MsgKinds Model.MsgRules Model.MsgCheck Proofs.Msg_proofs Proofs.MsgTable_proofs Proofs.MsgRules_proofs.
+From Verif Require Import Lib.Base Lib.PyStr Lib.MsgSchema Gen.Schema Gen.SchemaDecl
+  Model.Msg Model.MsgKinds Model.MsgRules Model.MsgCheck Model.MsgDecl
+  Proofs.Msg_proofs Proofs.MsgTable_proofs Proofs.MsgRules_proofs Proofs.MsgDecl_proofs.
 Open Scope string_scope.
 
 (* ---- the generic check ---- *)
@@ -384,6 +392,62 @@ Theorem C11_device_AccessTokenRequest_accepts_only :
   /\ (has "device_code" m = true -> has "grant_type" m = true /\ has "client_id" m = true).
 Proof. exact device_accepts_only. Qed.
 Print Assumptions C11_device_AccessTokenRequest_accepts_only.
+
+(* ---- the declared schema ----
+   Every class body was evaluated from its source text (no statement about c_param / c_default / c_allowed_values
+   outside the evaluator's subset: fail closed) ... *)
+Theorem C11_declared_all_evaluated : decl_refused = [].
+Proof. exact declared_all_evaluated. Qed.
+Print Assumptions C11_declared_all_evaluated.
+
+(* ... for exactly the classes of the run-time table ... *)
+Theorem C11_declared_same_classes : same_classes declared_schemas all_classes = true.
+Proof. exact declared_same_classes. Qed.
+Print Assumptions C11_declared_same_classes.
+
+(* ... and there is no (class, table, key) on which what the source declares and what the class objects hold after
+   importing the whole package differ: no class body or module changed another class's schema at import time.
+   (Recomputed on every run; a failure names the entries.) *)
+Theorem C11_declared_no_drift : drift declared_schemas all_classes = [].
+Proof. exact declared_no_drift. Qed.
+Print Assumptions C11_declared_no_drift.
+
+(* The same as an equality of tables: every class of the run-time table, rebuilt from the three tables its source
+   declares, is the class itself. *)
+Theorem C11_declared_is_runtime : declared_view declared_schemas all_classes = List.map Some all_classes.
+Proof. exact declared_is_runtime. Qed.
+Print Assumptions C11_declared_is_runtime.
+
+Theorem C11_declared_tables :
+  forall c, In c all_classes ->
+  exists ps al df, assoc (c_name c) declared_schemas = Some (ps, al, df)
+                   /\ c_params c = ps /\ c_allowed c = al /\ c_default c = df.
+Proof. exact declared_tables_of_class. Qed.
+Print Assumptions C11_declared_tables.
+
+(* Hence the generic check enforces the schema AS DECLARED IN THE SOURCE, exactly ... *)
+Theorem C11_generic_enforces_declared :
+  forall c m, In c all_classes ->
+  exists d, assoc (c_name c) declared_schemas = Some d /\
+            (generic_verify c m = Ok tt <-> schema_ok (as_declared c d) m = true).
+Proof. exact generic_enforces_declared. Qed.
+Print Assumptions C11_generic_enforces_declared.
+
+(* ... and so does every class-level verify(), whatever the class's own rules are: the accepted message satisfied the
+   declared schema before the rules ran (parent first) or satisfies it as it stands afterwards (parent last). *)
+Theorem C11_all_classes_enforce_declared :
+  forall c rules m m', In c all_classes -> class_verify rules c m = Ok m' ->
+  exists d, assoc (c_name c) declared_schemas = Some d /\
+            (schema_ok (as_declared c d) m = true \/ schema_ok (as_declared c d) m' = true).
+Proof. exact class_verify_enforces_declared. Qed.
+Print Assumptions C11_all_classes_enforce_declared.
+
+(* non-vacuity of the tie: a run-time table in which ONE required flag has been relaxed is not the declared one *)
+Theorem C11_declared_tie_discriminates :
+  let cs := List.map (relax_class (PS "idpyoidc.message.oauth2.AccessTokenResponse") (PS "access_token")) all_classes in
+  declared_view declared_schemas cs <> List.map Some cs.
+Proof. exact declared_tie_discriminates. Qed.
+Print Assumptions C11_declared_tie_discriminates.
 
 (* ---- non-vacuity ---- *)
 Definition ex_class : pystr := PS "idpyoidc.message.oidc.AuthorizationRequest".
